@@ -666,4 +666,40 @@ def TokenCache_Delete (tc : Go.CacheS) (token : Go.Str) : Go.CacheS :=
   let tc := (Cache_Delete tc token)
   tc
 
+/-- discoverProviderMetadata (main.go) -/
+def discoverProviderMetadata (fuel : Nat) {σ : Type} (ops : Go.DOps σ) (providerURL : Go.Str) (httpClient : Go.HTTPClient) (l : Go.Logger) (w : σ) : Option (((Option Go.Meta) × Go.Err) × σ) :=
+  let wellKnownURL := ((Go.trimSuffix providerURL ['/']) ++ ['/','.','w','e','l','l','-','k','n','o','w','n','/','o','p','e','n','i','d','-','c','o','n','f','i','g','u','r','a','t','i','o','n'])
+  let maxRetries := (5 : Int)
+  let baseDelay := ((1 : Int) * Go.Second)
+  let maxDelay := ((30 : Int) * Go.Second)
+  let totalTimeout := ((5 : Int) * Go.Minute)
+  let start := (ops.clock w)
+  let lastErr := (none : Go.Err)
+  let attempt := (0 : Int)
+  match Go.forWhile fuel (attempt, lastErr, w) (fun (attempt, lastErr, w) => (decide (attempt < maxRetries))) (fun (attempt, lastErr, w) =>
+    if (decide ((Go.timeSub (ops.clock w) start) > totalTimeout)) then
+      .ret ((((none : Option Go.Meta), (some (['t','i','m','e','o','u','t',' ','e','x','c','e','e','d','e','d',' ','w','h','i','l','e',' ','f','e','t','c','h','i','n','g',' ','p','r','o','v','i','d','e','r',' ','m','e','t','a','d','a','t','a',':',' '] ++ (Go.errText lastErr)))), w))
+    else
+      let ((metadata, err), w) := (ops.fetchMetadata w wellKnownURL)
+      if err.isNone then
+        .ret (((metadata, (none : Go.Err)), w))
+      else
+        let lastErr := err
+        let delay := ((Go.pow2 attempt) * baseDelay)
+        if (decide (delay > maxDelay)) then
+          let delay := maxDelay
+          let w := (ops.sleep w delay)
+          let attempt := (attempt + (1 : Int))
+          .next (attempt, lastErr, w)
+        else
+          let w := (ops.sleep w delay)
+          let attempt := (attempt + (1 : Int))
+          .next (attempt, lastErr, w)) with
+  | none => none
+  | some (.ret r) => some r
+  | some (.next (attempt, lastErr, w)) =>
+    some ((((none : Option Go.Meta), (some (['m','a','x',' ','r','e','t','r','i','e','s',' ','e','x','c','e','e','d','e','d',' ','w','h','i','l','e',' ','f','e','t','c','h','i','n','g',' ','p','r','o','v','i','d','e','r',' ','m','e','t','a','d','a','t','a',':',' '] ++ (Go.errText lastErr)))), w))
+  | some (.brk (attempt, lastErr, w)) =>
+    some ((((none : Option Go.Meta), (some (['m','a','x',' ','r','e','t','r','i','e','s',' ','e','x','c','e','e','d','e','d',' ','w','h','i','l','e',' ','f','e','t','c','h','i','n','g',' ','p','r','o','v','i','d','e','r',' ','m','e','t','a','d','a','t','a',':',' '] ++ (Go.errText lastErr)))), w))
+
 end Oidc.Generated.Code
